@@ -739,6 +739,9 @@ func (ex *Exec) chanRecv(ch *Chan, blocking bool) (Value, bool) {
 	if ch.closed {
 		return zero(ch.elemT), false
 	}
+	if ch.ticker {
+		return ex.clockNow(), true
+	}
 	if blocking {
 		ex.unsupported("blocking receive on empty channel (sequential model)")
 	}
@@ -756,7 +759,7 @@ func (ex *Exec) selectStmt(fr *frame, instr *ssa.Select) Value {
 			continue
 		}
 		if st.Dir == types.RecvOnly {
-			if len(ch.buf) > 0 || ch.closed {
+			if len(ch.buf) > 0 || ch.closed || ch.ticker {
 				recv, recvOk = ex.chanRecv(ch, false)
 				chosen = i
 				break
